@@ -242,6 +242,18 @@ mut("net_revert_via_ancestor_skip", "pymtl3/dsl/ComponentLevel3.py",
     "for obj in ( () if via_ancestor else v.get_sibling_slices() ):",
     "for obj in v.get_sibling_slices():", ["C08", "C01"])
 
+# -- C14: naming of nested lists / interfaces ----------------------------------------------------------
+mut("namedobj_nested_list_index_order", "pymtl3/dsl/NamedObject.py",
+    "            Q.extend( (v, indices+(i,)) for i, v in enumerate(u) )",
+    "            Q.extend( (v, (i,)+indices) for i, v in enumerate(u) )", ["C14"])
+mut("namedobj_list_level_counts_dims", "pymtl3/dsl/NamedObject.py",
+    "            ud.parent_obj = s\n            ud.level      = sd.level + 1\n\n            ud._my_name  = name\n",
+    "            ud.parent_obj = s\n            ud.level      = sd.level + len(indices)\n\n            ud._my_name  = name\n", ["C14"])
+mut("connectable_host_is_parent", "pymtl3/dsl/Connectable.py",
+    "        host = s\n        while not host.is_component():\n          host = host.get_parent_object() # go to the component\n",
+    "        host = s.get_parent_object()\n        while not host.is_component() and not host.is_interface():\n          host = host.get_parent_object() # go to the component\n        if host.is_interface(): host = host.get_parent_object()\n",
+    ["C14"])
+
 
 def load_extra():
   p = os.path.join(VERIF, "tools", "mutants_extra.json")
